@@ -468,6 +468,8 @@ class Registry:
         self.builtins = {}
 
     def add(self, c):
+        if c.target in self.by_target and self.by_target[c.target] is not c:
+            raise ValueError(f"two contracts for {c.target}")
         self.by_target[c.target] = c
         self.by_name.setdefault(c.simple_name, []).append(c)
         if c.qualname != c.simple_name:
@@ -483,6 +485,13 @@ class Registry:
                     return cands[0]
             return None
         cands = self.by_name.get(name, [])
+        if len(cands) > 1:
+            # the same function under contract in two integer semantics (bit-vector contract + its math-mode view):
+            # a caller sees the one of its own mode
+            from .values import Mode
+            same = [c for c in cands if c.int_mode == Mode.int_mode]
+            if len(same) == 1:
+                return same[0]
         if len(cands) == 1:
             return cands[0]
         if len(cands) > 1:
